@@ -384,11 +384,13 @@ impl FileSpec {
         files
             .iter()
             .filter(|path| {
-                // if suffix is specified, it must match
+                // if suffix is specified, it must match; the suffix can contain dots itself ("trc.log"),
+                // so it is compared with the end of the file name, not with its last extension
                 if let Some(suffix) = o_suffix {
-                    path.extension().is_some_and(|ext| {
-                        let s = ext.to_string_lossy();
-                        s == suffix
+                    path.file_name().is_some_and(|name| {
+                        let s = name.to_string_lossy();
+                        s.strip_suffix(suffix)
+                            .is_some_and(|rest| rest.ends_with('.'))
                     })
                 } else {
                     true
